@@ -28,6 +28,7 @@ import builtins
 import contextlib
 import functools
 import io
+import itertools
 import operator
 import re
 
@@ -79,6 +80,8 @@ def plan(tier):
         n_t, per_t, n_b, per_b, n_c = 56, 260, 8, 400, 8
     shards = [{"kind": "hyp", "name": f"type{i}", "examples": per_t, "what": "type"} for i in range(n_t)]
     shards += [{"kind": "hyp", "name": f"bf{i}", "examples": per_b, "what": "bitfield"} for i in range(n_b)]
+    n_p, per_p = (1, 24) if tier == "quick" else (4, 200)
+    shards += [{"kind": "hyp", "name": f"pair{i}", "examples": per_p, "what": "tmplpair"} for i in range(n_p)]
     shards += [{"kind": "enum", "name": f"catalog{i}", "part": i, "parts": n_c, "tier": tier} for i in range(n_c)]
     return shards
 
@@ -86,6 +89,8 @@ def plan(tier):
 def strategy(shard):
     if shard["what"] == "bitfield":
         return G.bitfield_case()
+    if shard["what"] == "tmplpair":
+        return G.tmplpair_case()
     return G.type_case(depth=3)
 
 
@@ -187,6 +192,7 @@ class _Co:
             cls.Bit, cls.BitVector, cls.Signed, cls.Unsigned = Bit, BitVector, Signed, Unsigned
             cls.Boolean = cohdl.Boolean
             cls.TQB = TypeQualifierBase
+            cls.std = cohdl.std
             cls.ready = True
         return cls
 
@@ -284,6 +290,8 @@ def _path_kinds(path, leaf):
 def _top(spec):
     k = spec["k"]
     if k == "rec":
+        if spec.get("ext"):
+            return "rec:tmpl_derived" if spec.get("base") else "rec:tmpl_base"
         tm = spec.get("tmpl")
         return "rec:" + (tm["kind"] if tm else ("inherit" if spec.get("base") else "plain"))
     return k
@@ -366,6 +374,17 @@ class _TypeChecker:
             self.finding("count", "P", "type", f"count_bits = {n}, reference width {self.w}")
             return True  # patterns of the reference width cannot be fed
         has_sarr = "sarr" in L.kinds(self.spec)
+        # the classes behind FlagEnum / Enum members are what the TypeSpec says (a FlagEnum specialisation must
+        # not be the cached Enum specialisation of the same underlying type, or vice versa)
+        fe = _Co.load().std.FlagEnum
+        for cls in getattr(mod, "FLAGS", []):
+            if not issubclass(cls, fe):
+                self.finding("class_identity", "P", "flag", f"{cls.__name__}(std.FlagEnum[U]) is not a subclass of "
+                             f"std.FlagEnum: mro {[c.__name__ for c in cls.__mro__[:4]]}")
+        for cls in getattr(mod, "ENUMS", []):
+            if issubclass(cls, fe):
+                self.finding("class_identity", "P", "enum", f"{cls.__name__}(std.Enum[U]) is a subclass of std.FlagEnum: "
+                             f"mro {[c.__name__ for c in cls.__mro__[:4]]}")
         done = 0
         for b in pats:
             self.cur_b = b
@@ -388,22 +407,32 @@ class _TypeChecker:
                 if ok:
                     self.cmp_leaves("from_layout", "P", lv, b, tag="[] access: ")
             consts = _const_tree(self.spec, L.unpack(self.spec, b))
-            ok, y = self.step("make", mod.make, consts)
-            if ok:
-                ok, by = self.step("to_bits_made", mod.tobits, y)
+            # the value built through the public constructors, in every construction style (keywords in
+            # declaration order, all positional, keywords reversed, positional + keywords, copy of reversed)
+            styles = getattr(mod, "STYLES", ["kw"])
+            for style in styles:
+                mk = mod.make if style == "kw" else getattr(mod, "make_" + style)
+                tag = "" if style == "kw" else f"[constructed {style}] "
+                sfx = "" if style == "kw" else "_" + style
+                ok, y = self.step("make" + sfx, mk, consts)
+                if not ok:
+                    continue
+                self.count("P_made_" + style)
+                ok, by = self.step("to_bits_made" + sfx, mod.tobits, y)
                 if ok:
-                    self.cmp_bits("to_layout", "P", by, b, n)
-                    ok, z = self.step("from_bits_made", mod.frombits, by)
+                    self.cmp_bits("to_layout", "P", by, b, n, tag=tag)
+                    ok, z = self.step("from_bits_made" + sfx, mod.frombits, by)
                     if ok:
                         ok, lv = self.step("leaves", mod.leaves, z)
                         if ok:
                             # from_bits(to_bits(y)) == y, observed on the leaves (y was built from them)
                             got_by, _ = _vec_value(by)
                             if got_by is not None:
-                                self.cmp_leaves("ft", "P", lv, got_by, tag="from_bits(to_bits(made)): ")
-                ok, lv = self.step("leaves_made", mod.leaves, y)
+                                self.cmp_leaves("ft", "P", lv, got_by, tag=tag + "from_bits(to_bits(made)): ")
+                ok, lv = self.step("leaves_made" + sfx, mod.leaves, y)
                 if ok:
-                    self.cmp_leaves("make_leaves", "P", lv, b, tag="leaves of constructed value: ")
+                    self.cmp_leaves("make_leaves", "P", lv, b, tag=tag + "leaves of constructed value: ")
+            if True:
                 ok, eqs = self.step("fixed_eq", mod.fixed_eq, x, consts)
                 if ok:
                     for e in eqs:
@@ -464,12 +493,23 @@ class _TypeChecker:
         return "S"
 
     def level_s(self, mod, pats):
-        try:
-            vhdl = compile_entity(mod.Sim)
-        except Rejected as r:
-            self.out.labels.append(f"S_rejected:{r.exc_type}")
-            return False
+        has_o2 = hasattr(mod, "Sim2")
+        vhdl = None
+        if has_o2:
+            try:
+                vhdl = compile_entity(mod.Sim2)
+            except Rejected as r:  # the constructor path does not accept signals for this type
+                self.out.labels.append(f"S_rebuild_rejected:{r.exc_type}")
+                has_o2 = False
+        if vhdl is None:
+            try:
+                vhdl = compile_entity(mod.Sim)
+            except Rejected as r:
+                self.out.labels.append(f"S_rejected:{r.exc_type}")
+                return False
         self.count("S_compiled")
+        if has_o2:
+            self.count("S_rebuild")
         sim = _open_sim(self.out, vhdl, {"i": 0}, self, "S")
         if sim is None:
             return False
@@ -490,6 +530,14 @@ class _TypeChecker:
             elif o1 != b:
                 self.finding("tf", lvl, L.blame(self.spec, b, o1),
                              f"pattern {b:0{self.w}b}: simulated to_bits(from_bits[T](i)) = {o1:0{self.w}b}")
+            if has_o2:
+                o2 = sim.get("o2")
+                if o2 is None:
+                    self.finding("to_layout", lvl, "undefined", f"pattern {b:0{self.w}b}: o2 = {sim.get_str('o2')}")
+                elif o2 != b:
+                    self.finding("to_layout", lvl, L.blame(self.spec, b, o2),
+                                 f"pattern {b:0{self.w}b}: simulated to_bits(value rebuilt with keywords in reversed "
+                                 f"order) = {o2:0{self.w}b}")
             exp = L.flat_leaves(self.spec, L.unpack(self.spec, b))
             for k, (e, (path, leaf, off, lw)) in builtins.enumerate(zip(exp, self.table)):
                 got = sim.get(f"l{k}")
@@ -531,7 +579,7 @@ def _open_sim(out, vhdl, inputs, chk=None, level="S"):
         out.labels.append(f"blocked:{str(d.unsupported)[:80]}")
         return None
     try:
-        return Sim(d, top="Sim", inputs=inputs)
+        return Sim(d, top=next(iter(d.entities)) if len(d.entities) == 1 else "Sim", inputs=inputs)
     except Blocked as b:
         out.status = "blocked"
         out.labels.append(f"blocked:{str(b)[:80]}")
@@ -544,7 +592,8 @@ def _open_sim(out, vhdl, inputs, chk=None, level="S"):
 
 _DIR = {"count": "count", "tf": "to_bits", "tf_type": "to_bits", "to_layout": "to_bits", "to_layout_type": "to_bits",
         "width": "to_bits", "from_layout": "from_bits", "from_layout_type": "from_bits", "ft": "from_bits",
-        "ft_type": "from_bits", "make_leaves": "construct", "make_leaves_type": "construct", "sim_error": "sim_error"}
+        "ft_type": "from_bits", "make_leaves": "construct", "make_leaves_type": "construct", "sim_error": "sim_error",
+        "class_identity": "class_identity"}
 
 
 def _children(spec):
@@ -667,6 +716,8 @@ def _check_type_inner(case):
         h = int(out.identity, 16)
         do_t = nleaf <= 30 and (h % 8 == 0 if case.get("catalog") else h % 3 == 0)
         do_s = nleaf <= 40 and (h % 4 == 0 if case.get("catalog") else h % 3 != 2)
+        if case.get("force_ts"):
+            do_t = do_s = nleaf <= 40
         if do_t:
             chk.count("cases.T_tried." + _top(spec))
             if chk.level_t(mod, pats):
@@ -972,11 +1023,66 @@ def _check_bitfield(case):
         unload_module(mod)
 
 
+# ---------------------------------------------------------------------------------- template base / derived pairs
+_pair_counter = itertools.count()
+
+
+def _check_tmplpair(case):
+    """`class PB(std.Record[ARG])`, `class PE(PB)` with extra members, both specialised with the same
+    argument (order drawn), and an Enum + a FlagEnum over one underlying type (order drawn): each of the
+    four types must have its own layout (the derived record includes the extra members)."""
+    out = Outcome()
+    out.identity = case_id({k: v for k, v in case.items() if k != "draws"})
+    out.labels.append("top:tmplpair")
+    out.labels.append("first:" + case["first"])
+    name = f"cvpre_{next(_pair_counter)}"
+    try:
+        pre = load_module(G.render_pair_prelude(case), name=name)
+    except (KeyboardInterrupt, SystemExit, RecursionError, MemoryError, SyntaxError):
+        raise
+    except Exception as e:  # noqa: BLE001
+        out.status = "rejected"
+        out.labels.append(f"rejected:define:{type(e).__name__}")
+        return out
+    try:
+        strip = lambda fields: [[n, dict(fs)] for n, fs in fields]  # noqa: E731
+        spec_b = {"k": "rec", "base": [], "fields": strip(case["base"]), "tmpl": case["tmpl"],
+                  "ext": {"module": name, "expr": "TB"}}
+        spec_e = {"k": "rec", "base": strip(case["base"]), "fields": strip(case["ext"]), "tmpl": case["tmpl"],
+                  "ext": {"module": name, "expr": "TE"}}
+        en = case["enum"]
+        e_spec = {"k": "enum", "u": en["u"], "members": en["members"]}
+        f_spec = {"k": "flag", "u": en["u"], "members": en["members"]}
+        pair = [["f0", e_spec], ["f1", f_spec]] if en["first"] == "enum" else [["f0", f_spec], ["f1", e_spec]]
+        spec_ef = {"k": "rec", "base": [], "fields": pair, "tmpl": None}
+        subs = [spec_b, spec_e] if case["first"] == "base" else [spec_e, spec_b]
+        n_ok = 0
+        for sp in subs + [spec_ef]:
+            w = L.width(sp)
+            sub = _check_type({"kind": "type", "spec": sp, "draws": [d & ((1 << w) - 1) for d in case["draws"]],
+                               "force_ts": sp is not spec_ef})
+            out.findings += sub.findings
+            out.labels += [l for l in sub.labels if not l.startswith(("top:", "depth:", "has:", "even", "uneven"))]
+            for k, v in sub.counters.items():
+                out.counters[k] = out.counters.get(k, 0) + v
+            if sub.status in ("blocked", "blocked_by_static"):
+                out.status = sub.status
+            n_ok += sub.status != "rejected"
+        if n_ok == 0:
+            out.status = "rejected"
+        out.nontrivial = n_ok == 3
+        return out
+    finally:
+        unload_module(pre)
+
+
 # ---------------------------------------------------------------------------------- entry points
 def check(case):
     with _quiet():  # cohdl prints diagnostics when it rejects something
         if case["kind"] == "bitfield":
             return _check_bitfield(case)
+        if case["kind"] == "tmplpair":
+            return _check_tmplpair(case)
         return _check_type(case)
 
 
@@ -990,6 +1096,10 @@ def selfcheck():
 
 
 def view(case):
+    if case["kind"] == "tmplpair":
+        src = G.render_pair_prelude(case)
+        return {"kind": "tmplpair", "types": src[len(G.HEADER):].strip().splitlines(), "enum": case["enum"],
+                "draws": case.get("draws")}
     spec = case["spec"]
     if case["kind"] == "bitfield":
         src = G.render_bitfield_module(spec)
